@@ -39,7 +39,7 @@ typedef struct { int msg; int optional; unsigned pats; int kind; int key; int pr
 
 /* user-held / stashed event records */
 typedef struct { const m_evt_t *p; int kind, msg, key; const void *ud; int refs; int prio; } evrec_t;
-#define MAXEV 32
+#define MAXEV 256
 
 /* non-ps sources of a module */
 enum { K_FD, K_TMR, K_SGN, K_PATH, K_PID, K_TASK, K_THRESH, NKIND };
@@ -68,7 +68,7 @@ typedef struct {
     int stash[MAXEV]; int nst;              /* indices into EV[] */
     int hs[8]; int nhs;                     /* handler stack (ids 1..3) */
     srcrec_t src[MAXSRC];
-    int tb_rate, tb_burst;
+    int tb_rate, tb_burst, tb_prev;         /* tb_prev: configuration replaced by the current one (reconfiguration may leave residue): part of the dedup key */
     unsigned life;                          /* sticky per-registration history flags (features ever used): keeps histories that went through a reset (stop) apart in the dedup key, since a reset may leave hidden residue */
     int elig_dirty;                         /* eligibility changed inside the current outermost API call (grace) */
     int reg_gen;
